@@ -226,6 +226,53 @@ def g_local(r):
     return sc.finish()
 
 
+def g_stale(r, kind=None, variant=None, t=None, names=None):
+    """a local vector whose cached child was taken out of the shared vector behind its back: the local removal then
+    returns Err but must still forget the cached handle, so that the next local request reaches the vector's NEW child
+    (variants: shared remove / shared reset / removal through a second local vector of the same shared vector)"""
+    kind = kind or r.choice(["CF", "CU", "H"])
+    variant = variant or r.choice(["remove", "removemap", "reset", "two_locals"])
+    if names is None: names = some_names(r, r.choice([1, 2, 2, 3]))
+    sc = Scen(r, kind, names, some_consts(r, names) if t is None else [])
+    if t is None:
+        pool = pool_for(r, len(names), 1)
+        t = r.choice(pool)
+        other = r.choice(pool)
+    else:
+        other = list(t[:-1]) + [t[-1] + "x"]
+    l1 = sc.ensure_local()
+    if r.random() < 0.5: sc.request(other)
+    sc.local_update(t)                                  # 1. local request: the child is created and cached
+    if r.random() < 0.5: sc.local_update(other)
+    if r.random() < 0.7: sc.s.emit("OpFlush", l1)
+    if variant == "two_locals":
+        l2 = sc.s.emit("OpLocal", sc.vec)
+        sc.local = l2; sc.local_update(t); sc.s.emit("OpFlush", l2)
+        sc.s.emit("OpLvRemove", l2, list(t))            # 2. removed through the other local vector (Ok)
+        sc.local = l1
+    elif variant == "reset": sc.s.emit("OpReset", sc.vec)              # 2. ... or all children dropped
+    elif variant == "removemap": sc.s.emit("OpRemoveMap", sc.vec, sc.kvs(t))
+    else: sc.s.emit("OpRemove", sc.vec, list(t))        # 2. removed through the shared vector
+    if r.random() < 0.3: sc.collect()
+    sc.s.emit("OpLvRemove", l1, list(t))                # 3. local removal: Err, the cache entry must go all the same
+    if r.random() < 0.4: sc.request(t)                  # (the vector may already have its new child)
+    sc.local_update(t)                                  # 4. local request again: must reach the vector's current child
+    sc.s.emit("OpFlush", l1)
+    sc.collect()
+    h = sc.request(t, r.choice(["pos", "map"]))         # a direct request shows the same child
+    sc.local_update(t); sc.s.emit("OpFlush", l1); sc.read(h)
+    return sc.finish()
+
+
+def stale_scenarios():
+    r = random.Random(11)
+    out = []
+    for kind in ("CU", "CF", "H"):
+        for variant in ("remove", "reset", "two_locals"):
+            out.append(g_stale(r, kind, variant, t=["ab", "c"], names=["x", "y"]))
+    return out
+
+
 def g_sweep(r, kind, k, bases, via_local=False):
     """every cut of the given strings requested in one vector: all pairs of them meet"""
     names = some_names(r, k)
@@ -280,7 +327,8 @@ class C05(SeqProp):
             "U+FFFF, U+10FFFF) into as many values as there are labels, positional or as a map in random key order (also with an overridden "
             "key), about 10% malformed (too few / too many values, unknown / missing / extra / repeated key); request i is followed by a "
             "read through its handle and an update of 2^i; local vectors (inc / observe / flush / remove), remove + new request, reset, "
-            "collects in between, a read through every handle and a collect at the end; plus sweep scenarios requesting every cut of "
+            "collects in between, a read through every handle and a collect at the end; every 7th scenario: a local vector whose cached child "
+            "is removed behind its back (shared remove / reset / another local vector), then local remove (Err) and a new local request; plus sweep scenarios requesting every cut of "
             "several strings in one 2-, 3- or 4-label vector (all pairs meet).  non-trivial = at least two requests succeeded and a "
             "collect showed at least one sample; distinct = distinct scenario text")
     assumptions = ["identity of children is decided by the 64-bit FNV-1a hash of the label values: the iff holds up to collisions of that hash "
@@ -295,7 +343,7 @@ class C05(SeqProp):
                    "local vectors panic instead of returning Err on a wrong number of values (their API returns no Result)",
                    "updates are distinct powers of two below 2^53 so that float sums are exact in any order",
                    "HashMap iteration order (children, label maps) is exercised through fresh maps per scenario, not controlled"]
-    corpus = collision_scenarios() + boundary_scenarios()
+    corpus = collision_scenarios() + boundary_scenarios() + stale_scenarios()
 
     def gen(self, r, tier):
         out = []
@@ -312,7 +360,7 @@ class C05(SeqProp):
                 kind = r.choice(KINDS); k = r.choice([2, 3])
                 out.append(g_sweep(r, kind, k, r.sample(BASES, 4 if k == 2 else 3), via_local=r.random() < 0.5))
         for j in range(n):
-            out.append(g_local(r) if j % 7 == 6 else g_random(r))
+            out.append(g_local(r) if j % 7 == 6 else g_stale(r) if j % 7 == 3 else g_random(r))
         return out
 
     def nontrivial(self, ops, o):
